@@ -101,7 +101,7 @@ UNIT = {
         'SourceRange::end_offset': {'src': {'file': TR, 'kind': 'fn', 'impl': 'SourceRange', 'name': 'end_offset'}, 'ret': 'r',
             'requires': 'self.start_offset + self.length <= usize::MAX', 'ensures': 'r == self.start_offset + self.length'},
         'MarkEvent': {'src': {'file': MK, 'kind': 'enum', 'name': 'MarkEvent'}},
-        'MarkEvent::none': {'src': {'file': MK, 'kind': 'fn', 'impl': 'MarkEvent', 'name': 'none'}},
+        'MarkEvent::none': {'src': {'file': MK, 'kind': 'fn', 'impl': 'MarkEvent', 'name': 'none'}, 'ret': 'r', 'ensures': 'r == none_ev()'},
         'LuaGreenElement': {'src': {'file': GB, 'kind': 'enum', 'name': 'LuaGreenElement'}, 'rules': ['vis-pub']},
         'LuaGreenNodeBuilder': {'src': {'file': GB, 'kind': 'struct', 'name': 'LuaGreenNodeBuilder'},
                                 'rules': [('struct-fields', {})]},
@@ -114,16 +114,18 @@ UNIT = {
             flat_all(final(self)) == flat_all(old(self)).push(range) /*@C01.token.appends*/,
             final(self).parents@ == old(self).parents@,
             final(self).builder == old(self).builder,
-            final(self).children@.len() == old(self).children@.len() + 1,
+            abs(final(self)) == ab_token(abs(old(self)), kind),
             ''',
-            proof=[(r'self\.children\.push\(len\);', 'after',
-                    'proof { lemma_token(old(self).elements@, old(self).children@, LuaGreenElement::Token { kind, range }); }')]),
+            proof=[(r'\}\s*$', 'before',
+                    '''proof { lemma_token(old(self).elements@, old(self).children@, LuaGreenElement::Token { kind, range });
+                               lemma_fl_token(old(self).elements@, old(self).children@, LuaGreenElement::Token { kind, range }); }''')]),
         'LuaGreenNodeBuilder::start_node': gb_fn('start_node',
             ensures='''
             final(self).elements@ == old(self).elements@,
             final(self).children@ == old(self).children@,
             final(self).builder == old(self).builder,
             final(self).parents@ == old(self).parents@.push((kind, old(self).children@.len() as usize)),
+            abs(final(self)) == ab_start(abs(old(self)), kind),
             '''),
         'LuaGreenNodeBuilder::is_trivia': gb_fn('is_trivia', rules=['is-some-and-block'], ret='r',
             ensures='r == (pos < self.elements@.len() && sp_trivia(self.elements@[pos as int]))'),
@@ -131,33 +133,51 @@ UNIT = {
             ensures='r == (pos < self.elements@.len() && sp_ws(self.elements@[pos as int]))'),
         'LuaGreenNodeBuilder::finish_node': gb_fn('finish_node', rules=['drain-from-collect', 'drain-incl-collect'],
             attrs='#[verifier::spinoff_prover]',
-            requires='wf(old(self)), top_ok(old(self))',
+            requires='wf(old(self)), top_ok(old(self)) /*@C02.finish_node.parents_ok*/',
             ensures='''
             wf(final(self)),
             flat_all(final(self)) == flat_all(old(self)) /*@C01.finish_node.preserves-tokens*/,
             final(self).builder == old(self).builder,
-            final(self).parents@ == (if old(self).parents@.len() == 0 || old(self).children@.len() == 0 { old(self).parents@ } else { old(self).parents@.drop_last() }),
+            abs(final(self)) == ab_finish(abs(old(self))) /*@C02.finish_node.abstract-step*/,
             ''',
-            body_first='let ghost ch0 = self.children@; let ghost es0 = self.elements@;',
+            body_first='let ghost ch0 = self.children@; let ghost es0 = self.elements@; let ghost fl0 = fl_of(es0, ch0);',
             loops={
-                0: 'invariant self.children@ == ch0, self.elements@ == es0, child_start <= first_start, first_start <= ch0.len() decreases child_start',
-                1: 'invariant self.children@ == ch0, self.elements@ == es0, child_count == ch0.len(), first_start <= child_start <= child_count decreases child_count - child_start',
-                2: 'invariant self.children@ == ch0, self.elements@ == es0, child_count == ch0.len(), child_start <= child_end + 1, child_end < child_count decreases child_end',
-                3: 'invariant self.children@ == ch0, self.elements@ == es0, child_count == ch0.len(), first_start <= child_start <= child_count decreases child_count - child_start',
-                4: 'invariant self.children@ == ch0, self.elements@ == es0, child_count == ch0.len(), child_start <= child_end + 1, child_end < child_count decreases child_end',
+                0: '''invariant self.children@ == ch0, self.elements@ == es0, wf_top(ch0, es0), fl0 == fl_of(es0, ch0), first_start == fs0, 0 <= child_start <= fs0 <= ch0.len(),
+                        scan_back(fl0, child_start as int) == scan_back(fl0, fs0)
+                    ensures scan_back(fl0, child_start as int) == child_start
+                    decreases child_start''',
+                1: '''invariant self.children@ == ch0, self.elements@ == es0, wf_top(ch0, es0), fl0 == fl_of(es0, ch0), child_count == ch0.len(), fs0 <= child_start <= child_count,
+                        scan_fwd(fl0, child_start as int, true) == scan_fwd(fl0, fs0, true)
+                    ensures scan_fwd(fl0, child_start as int, true) == child_start
+                    decreases child_count - child_start''',
+                2: '''invariant self.children@ == ch0, self.elements@ == es0, wf_top(ch0, es0), fl0 == fl_of(es0, ch0), child_count == ch0.len(), child_start <= child_end + 1, child_end < child_count,
+                        scan_end(fl0, child_end as int, child_start as int, true) == scan_end(fl0, child_count - 1, child_start as int, true)
+                    ensures scan_end(fl0, child_end as int, child_start as int, true) == child_end
+                    decreases child_end''',
+                3: '''invariant self.children@ == ch0, self.elements@ == es0, wf_top(ch0, es0), fl0 == fl_of(es0, ch0), child_count == ch0.len(), fs0 <= child_start <= child_count,
+                        scan_fwd(fl0, child_start as int, false) == scan_fwd(fl0, fs0, false)
+                    ensures scan_fwd(fl0, child_start as int, false) == child_start
+                    decreases child_count - child_start''',
+                4: '''invariant self.children@ == ch0, self.elements@ == es0, wf_top(ch0, es0), fl0 == fl_of(es0, ch0), child_count == ch0.len(), child_start <= child_end + 1, child_end < child_count,
+                        scan_end(fl0, child_end as int, child_start as int, false) == scan_end(fl0, child_count - 1, child_start as int, false)
+                    ensures scan_end(fl0, child_end as int, child_start as int, false) == child_end
+                    decreases child_end''',
             },
             proof=[
-                (r'let pos = self\.elements\.len\(\);', 'before', '''
+                (r'let \(parent_kind, mut first_start\) = self\.parents\.pop\(\)\.unwrap\(\);', 'after', 'let ghost fs0 = first_start as int;'),
+                (r'let pos = self\.elements\.len\(\);', 'after', '''
                 let ghost cs: int = if parent_kind is Block || parent_kind is Chunk { first_start as int } else { child_start as int };
                 let ghost ce: int = child_end + 1;
                 proof {
                     assert(self.children@ =~= ch0.subrange(0, cs) + ch0.subrange(ce, ch0.len() as int));
-                    lemma_wrap_flat(es0, ch0, cs, ce, green);
+                    lemma_wrap_flat(es0, ch0, cs, ce, green); /*@C01.finish_node.preserves-tokens*/
                     lemma_wrap_wf(es0, ch0, cs, ce, green);
+                    lemma_fl_wrap(es0, ch0, cs, ce, green);
                 }'''),
-                (r'self\.children\.push\(pos\);\s*\}', 'after', '''
+                (r'\}\s*$', 'before', '''
                 proof {
-                    assert(self.children@ =~= ch0.subrange(0, cs).push(pos) + ch0.subrange(ce, ch0.len() as int));
+                    assert(self.children@ =~= ch0.subrange(0, cs).push(pos) + ch0.subrange(ce, ch0.len() as int)); /*@C01.finish_node.preserves-tokens*/
+                    assert(abs(self).fl =~= ab_finish(abs(old(self))).fl); /*@C02.finish_node.abstract-step*/
                 }'''),
             ]),
         'LuaGreenNodeBuilder::build_rowan_green': gb_fn('build_rowan_green', rules=['for-iter-name', 'token-ghost-range'],
@@ -185,10 +205,10 @@ UNIT = {
                     gs.len() == stack@.len(),
                     forall|k: int| 0 <= k < gs.len() ==> #[trigger] gs[k] == (stack@[k].index, stack@[k].is_close),
                     dfs_inv(es0, self.elements@, gs),
-                    self.builder.emitted() == em0 + done,
-                    done + pend(es0, gs) == flat(es0, parent as int),
-                    self.builder.open() == o0 + ex,
-                    ex.len() == nclose(gs),
+                    self.builder.emitted() == em0 + done /*@C01.build_rowan_green.emits-subtree*/,
+                    done + pend(es0, gs) == flat(es0, parent as int) /*@C01.build_rowan_green.emits-subtree*/,
+                    self.builder.open() == o0 + ex /*@C02.build_rowan_green.rowan-balanced*/,
+                    ex.len() == nclose(gs) /*@C02.build_rowan_green.rowan-balanced*/,
                     forall|j: int| 0 <= j < ex.len() ==> #[trigger] ex[j] <= self.builder.nchildren(),
                     forall|i: int, j: int| 0 <= i <= j < ex.len() ==> #[trigger] ex[i] <= #[trigger] ex[j],
                     gs.len() > 0 ==> (if gs[0].1 { gs[0].0 == parent && es0[parent as int] is Node && ex.len() > 0 && ex[0] == nc0 }
@@ -203,7 +223,7 @@ UNIT = {
                     gs.len() == stack@.len(),
                     forall|k: int| 0 <= k < gs.len() ==> #[trigger] gs[k] == (stack@[k].index, stack@[k].is_close),
                     0 <= it.index@ <= children@.len(),
-                    gs == gs_after(g0.drop_last(), item.index, children@, it.index@),
+                    gs == gs_after(g0.drop_last(), item.index, children@, it.index@) /*@C01.build_rowan_green.emits-subtree*/,
                 ''',
             },
             proof=[
@@ -230,7 +250,7 @@ UNIT = {
                 proof {
                     lemma_dfs_pop(es0, cur0, g0);
                     ex = ex.drop_last();
-                    assert(self.builder.open() =~= o0 + ex);
+                    assert(self.builder.open() =~= o0 + ex); /*@C02.build_rowan_green.rowan-balanced*/
                     assert(pend(es0, g0) =~= pend(es0, gs));
                 }'''),
                 (r'LuaGreenElement::None\);', 'after', '''
@@ -241,7 +261,7 @@ UNIT = {
                 (r'self\.builder\.start_node\(kind\.into\(\)\);', 'after', '''
                 proof {
                     ex = ex.push(self.builder.nchildren());
-                    assert(self.builder.open() =~= o0 + ex);
+                    assert(self.builder.open() =~= o0 + ex); /*@C02.build_rowan_green.rowan-balanced*/
                 }'''),
                 (r'is_close: true,\s*\}\);', 'after', '''
                 proof {
@@ -251,9 +271,8 @@ UNIT = {
                 (r'is_close: false,\s*\}\);', 'after', '''
                 proof {
                     gs = gs.push((*child, false));
-                    assert(it.index@ >= 1);
-                    assert(*child == children@[children@.len() - it.index@]);
-                    assert(gs =~= gs_after(g0.drop_last(), item.index, children@, it.index@));
+                    assert(*child == children@[children@.len() - 1 - it.index@]); /*@C01.build_rowan_green.emits-subtree*/
+                    assert(gs =~= gs_after(g0.drop_last(), item.index, children@, it.index@ + 1)); /*@C01.build_rowan_green.emits-subtree*/
                 }'''),
                 (r'\}\);\s*\}', 'after', '''
                 proof {
@@ -274,33 +293,176 @@ UNIT = {
                 }'''),
                 (r'_ => \{', 'after', '''
                 proof {
-                    assert(pend(es0, g0) =~= pend(es0, gs));
+                    assert(pend(es0, g0) =~= pend(es0, gs)); /*@C01.build_rowan_green.emits-subtree*/
                 }'''),
             ]),
-        'LuaGreenNodeBuilder::finish': gb_fn('finish', rules=['mut-self-rebind']),
+        'LuaGreenNodeBuilder::finish': gb_fn('finish', rules=['mut-self-rebind'], ret='r',
+            requires='wf(&self), fresh_rowan(&self), ranges_ok(text, flat_all(&self))',
+            ensures='r.leaves() == flat_all(&self) /*@C01.finish.emits-all-tokens*/',
+            # hints only mention the parameters, so that the same overlay applies to any body of `finish`
+            body_first='''
+            proof {
+                let es = self.elements@; let ch = self.children@; let n = es.len() as int;
+                if ch.len() > 0 { lemma_first_root(es, ch, text); }
+                assert forall|node: LuaGreenElement| node is Node && kids(node) == ch && es.len() <= usize::MAX implies
+                    wf_elems(#[trigger] es.push(node)) && is_root(es.push(node), n) && flat(es.push(node), n) == flat_list(es, ch, n) by {
+                    lemma_wrap_all(es, ch, node);
+                }
+                assert forall|s: Seq<SourceRange>| #[trigger] (Seq::<SourceRange>::empty() + s) == s by {
+                    assert(Seq::<SourceRange>::empty() + s =~= s);
+                }
+            }'''),
         'LuaTreeBuilder': {'src': {'file': TB, 'kind': 'struct', 'name': 'LuaTreeBuilder'}, 'rules': [('struct-fields', {})]},
-        'LuaTreeBuilder::token': tb_fn('token'),
-        'LuaTreeBuilder::start_node': tb_fn('start_node'),
-        'LuaTreeBuilder::finish_node': tb_fn('finish_node'),
-        'LuaTreeBuilder::build': tb_fn('build', rules=['drain-rev-pop'],
-            loops={0: 'invariant true', 1: 'invariant true decreases 0int', 2: 'invariant true decreases parents@.len()'}),
-        'LuaTreeBuilder::finish': tb_fn('finish'),
+        'LuaTreeBuilder::token': tb_fn('token',
+            requires='wf(&old(self).green_builder)',
+            ensures='''
+            final(self).events == old(self).events, final(self).text == old(self).text,
+            wf(&final(self).green_builder),
+            flat_all(&final(self).green_builder) == flat_all(&old(self).green_builder).push(range),
+            final(self).green_builder.builder == old(self).green_builder.builder,
+            abs(&final(self).green_builder) == ab_token(abs(&old(self).green_builder), kind),
+            '''),
+        'LuaTreeBuilder::start_node': tb_fn('start_node',
+            ensures='''
+            final(self).events == old(self).events, final(self).text == old(self).text,
+            final(self).green_builder.elements@ == old(self).green_builder.elements@,
+            final(self).green_builder.children@ == old(self).green_builder.children@,
+            final(self).green_builder.builder == old(self).green_builder.builder,
+            abs(&final(self).green_builder) == ab_start(abs(&old(self).green_builder), kind),
+            '''),
+        'LuaTreeBuilder::finish_node': tb_fn('finish_node',
+            requires='wf(&old(self).green_builder), top_ok(&old(self).green_builder)',
+            ensures='''
+            final(self).events == old(self).events, final(self).text == old(self).text,
+            wf(&final(self).green_builder),
+            flat_all(&final(self).green_builder) == flat_all(&old(self).green_builder),
+            final(self).green_builder.builder == old(self).green_builder.builder,
+            abs(&final(self).green_builder) == ab_finish(abs(&old(self).green_builder)),
+            '''),
+        'LuaTreeBuilder::build': tb_fn('build', rules=['drain-rev-pop', 'for-iter-name'],
+            attrs='#[verifier::spinoff_prover]',
+            requires='''
+            fresh(&old(self).green_builder),
+            events_ok(old(self).events@) /*@C02.build.events_ok*/,
+            parents_ok(old(self).events@) /*@C02.build.parents_ok*/,
+            ''',
+            ensures='''
+            wf(&final(self).green_builder),
+            flat_all(&final(self).green_builder) == eaten(old(self).events@) /*@C01.build.tokens-in-event-order*/,
+            fresh_rowan(&final(self).green_builder),
+            final(self).text == old(self).text,
+            ''',
+            body_first='let ghost ev0 = self.events@; let ghost rb0 = self.green_builder.builder;',
+            loops={
+                0: '''
+                invariant
+                    it.snapshot.start == 0, it.snapshot.end == ev0.len(),
+                    self.events@.len() == ev0.len(), self.text == old(self).text,
+                    events_ok(self.events@), parents_ok(ev0),
+                    self.events@ == sim(ev0, i as int).ev,
+                    abs(&self.green_builder) == sim(ev0, i as int).ab,
+                    wf(&self.green_builder), self.green_builder.builder == rb0,
+                    flat_all(&self.green_builder) == eaten(ev0.subrange(0, i as int)) /*@C01.build.tokens-in-event-order*/,
+                    rest_ok(self.events@, ev0, i as int),
+                    parents@.len() == 0,
+                ''',
+                1: '''
+                invariant
+                    self.events@.len() == ev0.len(), self.text == old(self).text,
+                    events_ok(self.events@),
+                    rest_ok(self.events@, ev0, i as int + 1),
+                    self.green_builder == gbi,
+                    walk(self.events@, parent_position as int, parents@) == wres,
+                    parent_position == 0 || (parent_position < self.events@.len() && self.events@[parent_position as int] is NodeStart),
+                decreases (if parent_position == 0 { 0int } else { self.events@.len() - parent_position + 1 })
+                ''',
+                2: '''
+                invariant
+                    self.events@ == wres.0, self.text == old(self).text,
+                    wf(&self.green_builder), self.green_builder.builder == rb0,
+                    flat_all(&self.green_builder) == flat_all(&gbi),
+                    ab_starts_rev(abs(&self.green_builder), parents@) == ab_starts_rev(abs(&gbi), wres.1),
+                ensures parents@.len() == 0
+                decreases parents@.len()
+                ''',
+            },
+            proof=[
+                (r'let mut parents: Vec<LuaSyntaxKind> = Vec::new\(\);', 'after', '''
+                proof {
+                    assert(abs(&old(self).green_builder).fl =~= ab_empty().fl);
+                    assert(abs(&old(self).green_builder).parents =~= ab_empty().parents);
+                    assert(ev0.subrange(0, 0) =~= Seq::<MarkEvent>::empty());
+                }'''),
+                (r'for i in it: 0\.\.self\.events\.len\(\) \{', 'after', '''
+                let ghost evi = self.events@; let ghost gbi = self.green_builder;
+                proof {
+                    lemma_eaten_step(ev0, i as int);
+                    lemma_events_ok_update(evi, i as int);
+                    assert(sim(ev0, i as int + 1) == sim_step(sim(ev0, i as int), i as int));
+                }'''),
+                (r'self\.finish_node\(\);\s*\}\s*$', 'before', '''
+                proof { assert(ev0.subrange(0, ev0.len() as int) =~= ev0); }'''),
+                (r'let mut parent_position = parent;', 'after', '''
+                let ghost wres = walk(self.events@, parent as int, parents@);
+                proof { assert(parents@ =~= seq![kind]); }'''),
+                (r'while parent_position > 0 \{', 'after', '''
+                proof { lemma_events_ok_update(self.events@, parent_position as int); }'''),
+            ]),
+        'LuaTreeBuilder::finish': tb_fn('finish', ret='r',
+            requires='wf(&self.green_builder), fresh_rowan(&self.green_builder), ranges_ok(self.text, flat_all(&self.green_builder))',
+            ensures='r.leaves() == flat_all(&self.green_builder) /*@C01.finish.emits-all-tokens*/'),
     },
     'extra_rules': [
         ('drain-from-collect', r'(\w+(?:\s*\.\s*\w+)*)\s*\.drain\((\w+)\.\.\)\s*\.collect::<Vec<_>>\(\)', r'vx_drain_from(&mut \1, \2)',
          'V.drain(a..).collect::<Vec<_>>() -> vx_drain_from(&mut V, a) (std doc contract of Vec::drain; the out-of-bounds panic is the helper\'s precondition)'),
         ('drain-incl-collect', r'(\w+(?:\s*\.\s*\w+)*)\s*\.drain\((\w+)\.\.=(\w+)\)\s*\.collect::<Vec<_>>\(\)', r'vx_drain_incl(&mut \1, \2, \3)',
          'V.drain(a..=b).collect::<Vec<_>>() -> vx_drain_incl(&mut V, a, b) (std doc contract of Vec::drain; both panic conditions are the helper\'s precondition)'),
-        ('for-iter-name', r'for (\w+) in (\w+)\.iter\(\)\.rev\(\) \{', r'for \1 in it: \2.iter().rev() {',
+        ('for-iter-name', r'for (\w+) in (\w+\.iter\(\)(?:\.rev\(\))?|0\.\.self\.events\.len\(\)) \{', r'for \1 in it: \2 {',
          '`for x in E` -> `for x in it: E`: Verus syntax that names the ghost view of the iterator so that the loop invariant can mention it; no run-time meaning'),
-        ('token-ghost-range', r'let token_text = &text\[start\.\.end\];\s*self\.builder\.token\(kind\.into\(\), token_text\);',
-         r'let token_text = &text[start..end];\n                    self.builder.vx_token(kind.into(), token_text, Ghost((text, range)));',
-         'self.builder.token(k, &text[start..end]) -> self.builder.vx_token(k, &text[start..end], Ghost((text, range))): adds one erased (ghost) '
-         'argument naming the source text and range of the token; vx_token REQUIRES that the passed text is exactly that slice of `text`, so the ghost '
-         'argument is checked, not trusted'),
+        ('token-ghost-range',
+         r'let start = range\.start_offset;\s*let end = range\.end_offset\(\);\s*let token_text = &text\[start\.\.end\];\s*self\.builder\.token\(kind\.into\(\), token_text\);',
+         'let start = range.start_offset;\n                    let end = range.end_offset();\n                    let token_text = &text[start..end];\n'
+         '                    self.builder.vx_token(kind.into(), token_text, Ghost((text, range)));',
+         '`let start = range.start_offset; let end = range.end_offset(); let token_text = &text[start..end]; self.builder.token(k, token_text)` -> the same '
+         'four statements with `token` replaced by `vx_token(k, token_text, Ghost((text, range)))`: adds one erased (ghost) argument recording from which '
+         'text and byte range the token text was sliced. The pattern spans all four statements, so the recorded range is, syntactically, the range of the slice'),
     ],
     'allow': [r'external_body', r'uninterp spec fn', r'assume_specification'],
     'min_obligations': 10,
     'trusted': [],
-    'mutants': [],
+    'mutants': [
+        {'name': 'finish-node-insert-off-by-one', 'item': 'LuaGreenNodeBuilder::finish_node',
+         'pattern': r'self\.children\.insert\(child_start, pos\);', 'repl': 'self.children.insert(child_start + 1, pos);',
+         'expect': r'C01\.finish_node\.preserves-tokens'},
+        {'name': 'finish-node-push-instead-of-insert', 'item': 'LuaGreenNodeBuilder::finish_node',
+         'pattern': r'self\.children\.insert\(child_start, pos\);', 'repl': 'self.children.push(pos);',
+         'expect': r'C01\.finish_node\.preserves-tokens'},
+        {'name': 'finish-node-drop-else-push', 'item': 'LuaGreenNodeBuilder::finish_node',
+         'pattern': r'\} else \{\s*self\.children\.push\(pos\);\s*\}', 'repl': '}',
+         'expect': r'C01\.finish_node\.preserves-tokens'},
+        {'name': 'finish-node-block-drops-children', 'item': 'LuaGreenNodeBuilder::finish_node',
+         'pattern': r'LuaGreenElement::Node \{\s*kind: parent_kind,\s*children,\s*\}', 'repl': 'LuaGreenElement::Node { kind: parent_kind, children: Vec::new() }',
+         'expect': r'C01\.finish_node\.preserves-tokens'},
+        {'name': 'token-not-in-children', 'item': 'LuaGreenNodeBuilder::token',
+         'pattern': r'self\.children\.push\(len\);', 'repl': '',
+         'expect': r'C01\.token\.appends'},
+        {'name': 'finish-first-root-only', 'item': 'LuaGreenNodeBuilder::finish',
+         'pattern': r'let is_chunk_root = self\.children\.len\(\) == 1', 'repl': 'let is_chunk_root = self.children.len() >= 1',
+         'expect': r'C01\.finish\.emits-all-tokens'},
+        {'name': 'build-skips-eat-token', 'item': 'LuaTreeBuilder::build',
+         'pattern': r'self\.token\(kind, range\);', 'repl': '',
+         'expect': r'C01\.build\.tokens-in-event-order'},
+        {'name': 'rowan-children-not-reversed', 'item': 'LuaGreenNodeBuilder::build_rowan_green',
+         'pattern': r'children\.iter\(\)\.rev\(\)', 'repl': 'children.iter()',
+         'expect': r'C01\.build_rowan_green\.emits-subtree'},
+        {'name': 'finish-node-no-empty-check', 'item': 'LuaGreenNodeBuilder::finish_node',
+         'pattern': r'if self\.parents\.is_empty\(\) \|\| self\.children\.is_empty\(\) \{', 'repl': 'if self.parents.is_empty() {',
+         'expect': r'finish_node:possible-arithmetic-underflow'},
+        {'name': 'rowan-close-without-finish', 'item': 'LuaGreenNodeBuilder::build_rowan_green',
+         'pattern': r'self\.builder\.finish_node\(\);\s*continue;', 'repl': 'continue;',
+         'expect': r'C02\.build_rowan_green\.rowan-balanced'},
+        {'name': 'rowan-skips-token', 'item': 'LuaGreenNodeBuilder::build_rowan_green',
+         'pattern': r'LuaGreenElement::Token \{ kind, range \} => \{', 'repl': 'LuaGreenElement::Token { kind, range } if range.length > 1 => {',
+         'expect': r'C01\.build_rowan_green\.emits-subtree'},
+    ],
 }
